@@ -12,7 +12,11 @@ use steel::steel_vm::engine::Engine;
 
 fn main() {
     let mode = std::env::args().nth(1).unwrap_or_else(|| "hist".into());
-    std::panic::set_hook(Box::new(|_| {}));
+    std::panic::set_hook(Box::new(|info| {
+        if std::env::var("C06_SHOW_PANICS").is_ok() {
+            eprintln!("panic: {}", info);
+        }
+    }));
     if mode == "unit" {
         unit()
     } else {
